@@ -17,6 +17,7 @@ R09.8 a loop that climbs towards the root (`n = n.parent`) while its test adds n
 R09.9 the clade sets behind the tree distances are computed from the tree as it is NOW: TreeNode.subsets() writes its per-node scratch attribute ...
 R09.10 the tokeniser un-munges `_` only where an UNQUOTED label is completed (the writer quotes names to protect their underscores).
 R09.11 to_rich_dict keys edge attributes by node name only on a (copied) tree whose unnamed nodes were named.
+R09.15 the JSON reader recovers the root's name (the newick form does not carry it).
 R09.14 name_unnamed_nodes knows every existing name before it hands out the first generated one.
 """
 
@@ -612,7 +613,37 @@ def r09_14(chk):
     chk.floor("R09.14", 1, "name_unnamed_nodes")
 
 
+def r09_15(chk):
+    chk.rule("R09.15", "JSON tree protocol, the root: get_newick(with_node_names=True) writes NO name for the root while to_rich_dict files the root's attributes under its real name, so the reader must recover that name -- deserialise_tree assigns the rebuilt root's name from the keys of edge_attributes (or the writer stores it separately); otherwise a root not called 'root' comes back as 'root' and its params are dropped")
+    tm = chk.repo.module(TREE)
+    gn = tm.func("TreeNode.get_newick")
+    # does the writer blank the root's name?
+    blanks = any(isinstance(i, ast.If) and "is_root" in norm(i.test) + "" and "with_node_names" in norm(i.test) and any(isinstance(st, ast.Assign) and isinstance(st.value, ast.Constant) and st.value.value == "" for st in i.body) for i in ast.walk(gn))
+    w = tm.func("TreeNode.to_rich_dict")
+    writes_root_name = any(isinstance(c, ast.keyword) and c.arg in ("root_name", "root") for c in ast.walk(w)) or any(isinstance(x, ast.Constant) and x.value in ("root_name",) for x in ast.walk(w))
+    dm = chk.repo.module("util/deserialise.py")
+    r = dm.func("deserialise_tree")
+    k = key(dm, "deserialise_tree", "root name recovered")
+    if not blanks:
+        chk.ok("R09.15", k, dm.loc(r), "the newick writer keeps the root's name", nontrivial=False)
+        chk.floor("R09.15", 0, "")
+        return
+    attr_names = {st.targets[0].id for st in walk_no_nested(r) if isinstance(st, ast.Assign) and isinstance(st.targets[0], ast.Name) and "edge_attributes" in norm(st.value)}
+    derived = set(attr_names)
+    grew = True
+    while grew:
+        grew = False
+        for st in walk_no_nested(r):
+            if isinstance(st, ast.Assign) and isinstance(st.targets[0], ast.Name) and st.targets[0].id not in derived and any(isinstance(x, ast.Name) and x.id in derived for x in ast.walk(st.value)):
+                derived.add(st.targets[0].id)
+                grew = True
+    sets = [st for st in walk_no_nested(r) if isinstance(st, ast.Assign) and isinstance(st.targets[0], ast.Attribute) and st.targets[0].attr == "name" and any(isinstance(x, ast.Name) and x.id in derived for x in ast.walk(st.value))]
+    chk.decide(bool(sets) or writes_root_name, "R09.15", k, dm.loc(sets[0] if sets else r), f"`{norm(sets[0]) if sets else 'root name stored by the writer'}`", "the root's name is written nowhere the reader looks: make_tree('((a:1,b:2)ab:3,c:4)myroot;') with params on the root comes back from JSON named 'root' and without those params")
+    chk.floor("R09.15", 1, "deserialise_tree")
+
+
 def run(chk):
+    r09_15(chk)
     r09_14(chk)
     r09_13(chk)
     r09_12(chk)
